@@ -402,6 +402,46 @@ def check_build_plan():
                 written[os.path.relpath(full, root).replace(os.sep, "/")] = open(full, "rb").read()
         ob("extract-writes-exactly-the-planned-files", written == {k: (v.encode() if isinstance(v, str) else v) for k, v in files.items()}
            and os.path.realpath(str(out)) == os.path.realpath(root), {"written": sorted(written)})
+    # extracting into a root that already holds files (a reused build directory): every planned file ends up with the PLANNED
+    # contents, whatever was there -- same length, other length, or a file where a planned directory's sibling sits
+    with tempfile.TemporaryDirectory(prefix="verif_c09_") as td:
+        root = os.path.join(td, "build")
+        stale = {"top.il": "module \\old\nend\n", "sub/dir/x.bin": b"\xff\xfe\x00", "top.pcf": "set_io a 12345\n", "a.sh": "#!/bin/zz\n"}
+        ps, _f = plan(["top.il", "sub/dir/x.bin", "top.pcf", "a.sh"])
+        for k in list(ps.files):
+            ps.files[k] = stale[k]
+        same_len = [k for k in files if len(stale[k]) == len(files[k])]
+        ps.extract(root)
+        p1.extract(root)
+        written = {}
+        for dp, _dn, fns in os.walk(root):
+            for f in fns:
+                full = os.path.join(dp, f)
+                written[os.path.relpath(full, root).replace(os.sep, "/")] = open(full, "rb").read()
+        ob("extract-into-a-reused-root-writes-the-planned-contents", written == {k: (v.encode() if isinstance(v, str) else v) for k, v in files.items()}
+           and len(same_len) >= 3,
+           {"files whose contents on disk differ from the plan": sorted(k for k, v in files.items() if written.get(k) != (v.encode() if isinstance(v, str) else v)),
+            "stale files of the same length": same_len, "how": "BuildPlan.extract(root) of one plan, then of another plan with the same file names, into the same root"})
+    # effect rule on the source of extract(): inside the loop over self.files, the write (open(..., 'wb') + write) is reached on every
+    # iteration -- it is not under a condition and no continue / break / return precedes it
+    node = source.function_node("amaranth/build/run.py", "BuildPlan.extract") if hasattr(source, "function_node") else None
+    if node is None:
+        import inspect, textwrap
+        node = ast.parse(textwrap.dedent(inspect.getsource(BuildPlan.extract))).body[0]
+    loops = [n for n in ast.walk(node) if isinstance(n, ast.For) and "files" in ast.unparse(n.iter)]
+    rule_ok = len(loops) == 1
+    detail = {}
+    if rule_ok:
+        reached = False
+        for st in loops[0].body:
+            if isinstance(st, ast.With) and "open(" in ast.unparse(st.items[0].context_expr) and "'wb'" in ast.unparse(st.items[0].context_expr).replace('"', "'"):
+                reached = any(isinstance(c, ast.Call) and isinstance(c.func, ast.Attribute) and c.func.attr == "write" for c in ast.walk(st))
+                break
+            if any(isinstance(c, (ast.Continue, ast.Break, ast.Return)) for c in ast.walk(st)):
+                detail = {"statement before the write that can skip it": ast.unparse(st)[:200]}
+                break
+        rule_ok = reached
+    ob("extract-loop-writes-every-planned-file-unconditionally(effect rule)", rule_ok, detail or {"loops over self.files": len(loops)})
     return {"task": "build-plan", "paths": 0, "solver_s": 0.0, "obligations": obs}
 
 
